@@ -158,7 +158,7 @@ pub struct SeqState {
     pub exts: BTreeMap<String, Fv>,
 }
 
-fn is_mutation(op: &COp) -> bool {
+pub fn is_mutation(op: &COp) -> bool {
     !matches!(op, COp::Get { .. } | COp::QueryAge { .. })
 }
 
@@ -206,7 +206,7 @@ pub fn model_apply(st: &mut SeqState, idx: &IndexSet, op: &COp, real: &Ret) -> R
     }
 }
 
-fn doc_of(op: &COp) -> Option<u64> {
+pub fn doc_of(op: &COp) -> Option<u64> {
     match op {
         COp::Update { id, .. } | COp::Remove { id } | COp::Get { id } => Some(*id as u64 + 1),
         _ => None,
@@ -243,10 +243,23 @@ pub struct RunOut {
     pub flush_snaps: Vec<BTreeMap<String, Vec<u8>>>,
     pub steps: u64,
     pub interleaved: bool,
+    /// crash mode: backend contents at the power cut, acknowledged returns, started flags
+    pub crash_snap: Option<BTreeMap<String, Vec<u8>>>,
+    pub acked: Vec<Option<Ret>>,
+    pub started: Vec<bool>,
+    pub poisoned: bool,
 }
 
 /// Executes one schedule.
 pub fn execute(case: &Case, ch: &mut Chooser, fail_release: Option<u64>) -> Result<(RunOut, SeqState), String> {
+    execute_with(case, ch, fail_release, None)
+}
+
+/// Like `execute`; with `crash_at = Some(s)` the power is cut at decision point `s`: the backend is
+/// snapshotted as it is (calls parked *before* landing have not landed, calls parked *after* have),
+/// every task is dropped, and the snapshot is returned in `RunOut::crash_snap` together with the
+/// returns of the operations that had been acknowledged (`None` = in flight or not started).
+pub fn execute_with(case: &Case, ch: &mut Chooser, fail_release: Option<u64>, crash_at: Option<u64>) -> Result<(RunOut, SeqState), String> {
     install_clocks(1_700_000_000_000);
     let rt = tokio::runtime::Builder::new_current_thread().enable_time().build().unwrap();
     let local = tokio::task::LocalSet::new();
@@ -310,6 +323,21 @@ pub fn execute(case: &Case, ch: &mut Chooser, fail_release: Option<u64>) -> Resu
                 }
                 return Err("inconclusive: nothing is parked but operations are unfinished (deadlock of the explorer)".into());
             }
+            if crash_at == Some(step.load(Ordering::SeqCst)) {
+                let snap = vf_core::store::dump_store(mem.as_ref()).await;
+                let acked: Vec<Option<Ret>> = results.lock().unwrap().clone();
+                let started: Vec<bool> = inv_step.iter().map(|s| *s > 0).collect();
+                for h in &handles {
+                    h.abort();
+                }
+                hub.release_all(false);
+                for h in handles {
+                    let _ = h.await;
+                }
+                let rets = acked.iter().map(|r| r.clone().unwrap_or(Ret::Unit)).collect();
+                let steps = step.load(Ordering::SeqCst);
+                return Ok((RunOut { rets, span: vec![], fin: SeqState::default(), flush_snaps: vec![], steps, interleaved, crash_snap: Some(snap), acked, started, poisoned: false }, pre));
+            }
             let c = ch.choose(p.len());
             let s = step.fetch_add(1, Ordering::SeqCst) + 1;
             if p[c].phase == Phase::Start {
@@ -335,7 +363,16 @@ pub fn execute(case: &Case, ch: &mut Chooser, fail_release: Option<u64>) -> Resu
             let _ = h.await;
         }
         hub.set_enabled(false);
-        // final state
+        // final state (a handle poisoned by an injected failure rejects reads: the caller reopens
+        // the backend contents instead)
+        if col.is_poisoned() {
+            let snap = vf_core::store::dump_store(mem.as_ref()).await;
+            let rets: Vec<Ret> = results.lock().unwrap().iter().map(|r| r.clone().unwrap()).collect();
+            let resp = resp_step.lock().unwrap().clone();
+            let span = (0..n).map(|i| (inv_step[i], resp[i])).collect();
+            let acked = rets.iter().cloned().map(Some).collect();
+            return Ok((RunOut { rets, span, fin: SeqState::default(), flush_snaps: vec![], steps: step.load(Ordering::SeqCst), interleaved, crash_snap: Some(snap), acked, started: vec![true; n], poisoned: true }, pre));
+        }
         let mut fin = SeqState::default();
         for id in col.ids() {
             match col.get(id).await {
@@ -358,7 +395,9 @@ pub fn execute(case: &Case, ch: &mut Chooser, fail_release: Option<u64>) -> Resu
         let resp = resp_step.lock().unwrap().clone();
         let span = (0..n).map(|i| (inv_step[i], resp[i])).collect();
         let flush_snaps = snaps.lock().unwrap().clone();
-        Ok((RunOut { rets, span, fin, flush_snaps, steps: step.load(Ordering::SeqCst), interleaved }, pre))
+        let acked = rets.iter().cloned().map(Some).collect();
+        let poisoned = col.is_poisoned();
+        Ok((RunOut { rets, span, fin, flush_snaps, steps: step.load(Ordering::SeqCst), interleaved, crash_snap: None, acked, started: vec![true; n], poisoned }, pre))
     })
 }
 
@@ -481,7 +520,7 @@ pub fn check(case: &Case, ch: &mut Chooser, ctx: &mut CaseCtx) -> Result<(), Str
     Ok(())
 }
 
-fn reopen_snapshot(snap: &BTreeMap<String, Vec<u8>>) -> Result<SeqState, String> {
+pub fn reopen_snapshot(snap: &BTreeMap<String, Vec<u8>>) -> Result<SeqState, String> {
     use object_store::{ObjectStoreExt, PutPayload, path::Path};
     vf_core::block_on(async {
         let mem = Arc::new(InMemory::new());
